@@ -94,6 +94,10 @@ def c01_jobs(tier):
             for el in ['TrM', 'TrC', 'TrX']:
                 if elem_supports(el, op):
                     for (n, cap) in [(2, 2), (2, 4)]: js.append(ops_job(op, el, n, cap))
+    # arguments that refer to an element of the container itself are ordinary std::vector usage too (C11 explores them in depth): the heap cell for
+    # int and for the element type whose moves change their source
+    for op in OPS_ALIAS:
+        js.append(ops_job(op, 'int', 2, 4, alias=1)); js.append(ops_job(op, 'Pz', 2, 4, alias=1, maxcnt=2))
     js += two_basic(tier) + rng_basic(tier)
     from .jobs import std_two_job, std_ops_job
     for op in ['insert_n', 'push_back_c', 'erase_range', 'resize_v', 'assign_n', 'shrink', 'reserve', 'insert_range']:
@@ -520,6 +524,13 @@ def c18_jobs(tier):
         for (afl, ideq) in [(0, 1), (A_IAE, 0), (A_POCMA, 0)]:
             js.append(two_job(op, 'TrA', 2, 2, 2, 2, afl=afl, ideq=ideq, fmask=J.K_ALL, sizea=1, witness=EX)); js.append(two_job(op, 'TrA', 2, 2, 2, 2, afl=afl, ideq=ideq, fmask=J.K_ALL, sizea=2, sizeb=1, witness=EX))
     js.append(two_job('swap', 'TrA', 2, 2, 2, 2, fmask=J.K_ALL, sizea=1))
+    # swap of element types with nothrow move and nothrow swap: the element part cannot throw, but with unequal non-propagating allocators the
+    # reallocating branch allocates - the allocation failure must reach the caller (public swap is noexcept(false) there)
+    for op in ['swap', 'nm_swap']:
+        for (na, nb, ca, cb) in [(2, 2, 2, 4), (2, 2, 4, 2), (0, 0, 0, 2), (2, 2, 2, 2), (2, 2, 4, 5)]:
+            js.append(two_job(op, 'int', na, nb, ca, cb, afl=0, ideq=0, fmask=J.K_ALLOC, witness=(EX if ca != cb else None)))
+        js.append(two_job(op, 'Tr', 2, 2, 2, 4, afl=0, ideq=0, fmask=J.K_ALLOC, sizea=1, witness=EX))
+        js.append(two_job(op, 'int', 2, 2, 2, 4, afl=A_POCMA, ideq=0, fmask=J.K_ALLOC))
     for op in ['push_back_c', 'insert_c', 'resize_v', 'reserve', 'emplace_back']:
         js.append(ops_job(op, 'TrX', 2, 4, fmask=J.K_ALL, witness=FAULT_W))
     for op in ['ctor_range', 'assign_range', 'insert_range', 'append_range']:
@@ -647,6 +658,10 @@ def c08_jobs(tier):
     for op in ops:
         for (n, cap) in ([(2, 2), (2, 4), (0, 0)] if tier == 'quick' else cells(tier)):
             js.append(ops_job(op, 'int', n, cap, ce=True, maxcnt=2 if tier == 'quick' else 3))
+    if tier == 'quick':
+        # a larger buffer with counts up to 3 for the shifting operations (tails of 2 or more elements next to counts of 2..3), as in C01's grid
+        for op in ['insert_n', 'insert_range', 'insert_il', 'insert_c', 'emplace', 'erase_range', 'assign_n', 'resize_v']:
+            js.append(ops_job(op, 'int', 2, 6, ce=True, maxcnt=3)); js.append(ops_job(op, 'int', 0, 5, ce=True, maxcnt=3))
     for op in (['push_back_c', 'insert_c', 'insert_n', 'resize_v', 'erase_range', 'assign_n', 'emplace_back', 'shrink', 'reserve'] if tier == 'quick' else ops):
         if op in ('at', 'access'): continue
         for (n, cap) in ([(2, 2)] if tier == 'quick' else [(2, 2), (2, 4), (0, 2)]):
